@@ -29,7 +29,7 @@ BOUNDS = {
              'CRAM-MD5 with initial response or challenge, cancel, bad '
              'base64 with 3 symbolic bytes, unknown mechanism, empty) x '
              'encrypted or not x verdict (235 / 535 / 454)',
-    'thorough': '8 pipelined bytes, 4 garbage bytes',
+    'thorough': '8 pipelined bytes',
 }
 OUTSIDE = ('the inside of the pysasl mechanisms (third-party code, run '
            'natively on concrete credentials: ASCII, Unicode, empty); real '
@@ -62,8 +62,10 @@ def cells(tier):
     out.append({'kind': 'stls_client', 't': 4})
     out.append({'kind': 'stls_seq', 't': 2})
     for shape in range(len(SHAPES)):
-        out.append({'kind': 'auth', 'shape': shape,
-                    'g': 3 if tier == 'quick' else 4})
+        # 3 garbage bytes can never decode to a PLAIN response; 4 could, and
+        # the decoded (symbolic) bytes would then enter pysasl, which is
+        # third-party code outside the instrumented modules
+        out.append({'kind': 'auth', 'shape': shape, 'g': 3})
     return out
 
 
